@@ -1,25 +1,38 @@
 """Translator for C06: the tables of the bus side of authentication.
 
-From the repository under test (runtime objects, plus two small AST shapes):
+Every entry has two routes where possible - (1) a named attribute / a syntactic shape of the source, (2) the
+behaviour of the real code, probed on a real BusProtocol + BusAuthenticator over a StringTransport.  Where both work
+they must agree (disagreement = TranslatorError); an entry found only by probing adds a sentence to ADVISORIES (the
+pipeline then widens the correspondence streams); an entry found by neither is a TranslatorError.  Nothing is ever
+taken from an expected value.
 
-  * `BasicDBusProtocol.MAX_AUTH_LENGTH`, `authDelimiter`, and the slack `K` of the remainder check
-    `len(self._buffer) > (self.MAX_AUTH_LENGTH + len(self.authDelimiter) - K)` in `dataReceived`
-  * `BusAuthenticator.MAX_REJECTS_ALLOWED`
-  * `BusAuthenticator.authenticators`: mechanism names in dictionary order and which of the three
-    known mechanism classes each name maps to
-  * the command table: every attribute `_auth_<NAME>` of `BusAuthenticator` (what
-    `getattr(self, '_auth_' + cmd.decode(), None)` can find)
-  * the reply words used by `reject`, `sendError`, `stepAuth` (read from the AST: the bytes
-    literals `b'REJECTED '`, `b'ERROR '`, `b'ERROR'`, `b'OK '`, `b'DATA '`, `b'"Unknown command"'`)
-  * the three state names assigned to `self.state`
-
-Anything of an unexpected shape raises TranslatorError (a broken table obligation).
+  * MAX_AUTH_LENGTH        attribute of BasicDBusProtocol | probe: bisect the longest complete line still handed to
+                           the authenticator (`\\0` + n bytes + delimiter: closed or not)
+  * remainder slack K      AST: `len(self._buffer) > (self.MAX_AUTH_LENGTH + len(self.authDelimiter) - K)` and
+                           `len(line) > self.MAX_AUTH_LENGTH`, in whichever method of the class they live (only
+                           comparisons mentioning MAX_AUTH_LENGTH are looked at) | probe: bisect the longest
+                           unterminated remainder that does not close; K = line limit + len(delimiter) - that
+  * MAX_REJECTS_ALLOWED    attribute of BusAuthenticator | probe: number of ERROR lines answered REJECTED before the close
+  * authDelimiter          attribute (runtime object)
+  * authenticators         runtime dict: names in order, class of each (must be one of the three known classes)
+  * reject_msg             the constructed object's attribute, cross-checked with the reply to `AUTH`
+  * commands               `_auth_<NAME>` methods | probe: candidate words not answered like an unknown command
+  * reply words            provoked from the real authenticator (unknown command, DATA out of turn, AUTH, AUTH
+                           ANONYMOUS, AUTH EXTERNAL with credentials); cross-check: bytes literal of the class source
+  * state names            string constants assigned to `self.state` anywhere in the class (sorted)
+  * cookie expiry          AST `abs(timefunc() - int(k_time)) < N` | probe: first age `_get_cookies` drops
+  * urandom sizes          AST `os.urandom(N)` in _create_cookie / _step_one | probe: arguments os.urandom receives
 """
 import ast
 import inspect
+import os
 import textwrap
 
 MODULE = 'TxdbusModel.Gen.ServerAuth'
+
+# Filled by emit(): table entries whose source shape was not recognised and that were derived by probing the real
+# code instead.  The pipeline then widens the correspondence streams instead of reporting a broken obligation.
+ADVISORIES = []
 
 
 class TranslatorError(Exception):
@@ -30,27 +43,35 @@ def _bytes_list(b):
     return '[' + ', '.join(str(x) for x in b) + ']'
 
 
-def _remainder_slack(cls):
-    src = textwrap.dedent(inspect.getsource(cls.dataReceived))
-    fn = ast.parse(src).body[0]
-    # only the line-mode branch (`else:` of `if self._authenticated:`) belongs to C06; the binary branch may
-    # compare len(self._buffer) in any way it likes
-    scope = [fn]
-    for st in fn.body:
-        if (isinstance(st, ast.If) and isinstance(st.test, ast.Attribute) and st.test.attr == '_authenticated'
-                and st.orelse):
-            scope = st.orelse
-            break
-    found = []
-    line_checks = 0
-    for node in (n for top in scope for n in ast.walk(top)):
-        if (isinstance(node, ast.Compare) and isinstance(node.left, ast.Call)
-                and isinstance(node.left.func, ast.Name) and node.left.func.id == 'len'
-                and len(node.left.args) == 1):
-            arg = node.left.args[0]
-            if (isinstance(arg, ast.Attribute) and arg.attr == '_buffer'):
-                c = node.comparators[0]
-                ok = (len(node.ops) == 1 and isinstance(node.ops[0], ast.Gt)
+def _class_functions(cls):
+    """AST of every function defined in the class body (the framing may be split over several methods)."""
+    src = textwrap.dedent(inspect.getsource(cls))
+    tree = ast.parse(src)
+    return [n for n in ast.walk(tree) if isinstance(n, (ast.FunctionDef, ast.AsyncFunctionDef))]
+
+
+def _mentions(node, attr):
+    return any(isinstance(n, ast.Attribute) and n.attr == attr for n in ast.walk(node))
+
+
+def _limits_by_ast(cls):
+    """Route 1 (syntactic): the two length checks of the line framing, wherever in the class they live.
+    Returns (slack K, line check recognised) or None when the shapes are not the known ones.  Only comparisons
+    that mention MAX_AUTH_LENGTH are looked at (the binary branch may compare len(self._buffer) as it likes)."""
+    slack, line_checks, odd = [], 0, 0
+    for fn in _class_functions(cls):
+        for node in ast.walk(fn):
+            if not (isinstance(node, ast.Compare) and _mentions(node, 'MAX_AUTH_LENGTH')):
+                continue
+            left = node.left
+            is_len = (isinstance(left, ast.Call) and isinstance(left.func, ast.Name) and left.func.id == 'len'
+                      and len(left.args) == 1)
+            if not is_len or len(node.ops) != 1:
+                odd += 1
+                continue
+            arg, c = left.args[0], node.comparators[0]
+            if isinstance(arg, ast.Attribute) and arg.attr == '_buffer':
+                ok = (isinstance(node.ops[0], ast.Gt)
                       and isinstance(c, ast.BinOp) and isinstance(c.op, ast.Sub)
                       and isinstance(c.left, ast.BinOp) and isinstance(c.left.op, ast.Add)
                       and isinstance(c.left.left, ast.Attribute) and c.left.left.attr == 'MAX_AUTH_LENGTH'
@@ -59,20 +80,208 @@ def _remainder_slack(cls):
                       and isinstance(c.left.right.args[0], ast.Attribute)
                       and c.left.right.args[0].attr == 'authDelimiter'
                       and isinstance(c.right, ast.Constant) and isinstance(c.right.value, int))
-                if not ok:
-                    raise TranslatorError('remainder length check has an unexpected shape: %s' % ast.dump(node))
-                found.append(c.right.value)
-            elif isinstance(arg, ast.Name) and arg.id == 'line':
-                ok = (len(node.ops) == 1 and isinstance(node.ops[0], ast.Gt)
-                      and isinstance(node.comparators[0], ast.Attribute)
-                      and node.comparators[0].attr == 'MAX_AUTH_LENGTH')
-                if not ok:
-                    raise TranslatorError('line length check has an unexpected shape: %s' % ast.dump(node))
-                line_checks += 1
-    if len(found) != 1 or line_checks != 1:
-        raise TranslatorError('dataReceived: expected one remainder check and one line check, found %r / %d'
-                              % (found, line_checks))
-    return found[0]
+                if ok:
+                    slack.append(c.right.value)
+                else:
+                    odd += 1
+            elif isinstance(arg, ast.Name):
+                if isinstance(node.ops[0], ast.Gt) and isinstance(c, ast.Attribute) and c.attr == 'MAX_AUTH_LENGTH':
+                    line_checks += 1
+                else:
+                    odd += 1
+            else:
+                odd += 1
+    if odd == 0 and len(slack) == 1 and line_checks == 1:
+        return slack[0]
+    return None
+
+
+# ----------------------------------------------------------------------------- route 2: probing the real code
+class _Factory:
+    class bus:
+        uuid = b'0123456789abcdef'
+
+        @staticmethod
+        def clientDisconnected(p):
+            pass
+
+
+def _session(creds=None):
+    """A real BusProtocol with the real BusAuthenticator on a StringTransport (no getsockopt)."""
+    from twisted.internet.testing import StringTransport
+    import txdbus.protocol
+    from txdbus import bus
+    txdbus.protocol._is_linux = False
+    p = bus.BusProtocol()
+    p.factory = _Factory
+    t = StringTransport()
+    p.makeConnection(t)
+    p._unix_creds = creds
+    return p, t
+
+
+def _feed(p, t, data):
+    try:
+        p.dataReceived(data)
+        return None
+    except Exception as e:       # an escaping exception is "connection lost by the reactor"
+        return e
+
+
+def _boundary(closes, hi=1 << 22):
+    """Largest n with not closes(n), for a monotone predicate (checked at both ends and around the result)."""
+    if closes(0) or not closes(hi):
+        return None
+    lo = 0
+    while hi - lo > 1:
+        mid = (lo + hi) // 2
+        if closes(mid):
+            hi = mid
+        else:
+            lo = mid
+    for k in (lo - 1, lo, lo + 1, lo + 2):
+        if k >= 0 and closes(k) != (k > lo):
+            return None
+    return lo
+
+
+def _probe_limits(delim):
+    """Route 2: the longest complete line that is still handed to the authenticator, the longest unterminated
+    remainder that does not close the connection, and the number of rejections answered before the close."""
+    def closes_line(n):
+        p, t = _session()
+        _feed(p, t, b'\0' + b'X' * n + delim)
+        return bool(t.disconnecting)
+
+    def closes_rest(n):
+        p, t = _session()
+        _feed(p, t, b'\0' + b'X' * n)
+        return bool(t.disconnecting)
+    line = _boundary(closes_line)
+    rest = _boundary(closes_rest)
+    p, t = _session()
+    _feed(p, t, b'\0')
+    rejects = None
+    for k in range(1, 1000):
+        before = len(t.value())
+        _feed(p, t, b'ERROR' + delim)
+        if t.disconnecting:
+            rejects = k - 1 if len(t.value()) == before else None
+            break
+    return line, rest, rejects
+
+
+def _probe_words(B, names, delim):
+    """Route 2 for the reply words: provoke each reply and cut the fixed part off."""
+    def reply(lines, creds=None):
+        p, t = _session(creds)
+        err = _feed(p, t, b'\0' + b''.join(l + delim for l in lines))
+        out = t.value().split(delim)
+        return None if err is not None else (out[-2] if len(out) >= 2 else b'')
+    w = {}
+    r_unknown = reply([b'NO_SUCH_COMMAND_xq'])
+    r_error = reply([b'DATA'])
+    if r_error and r_unknown and r_unknown.startswith(r_error + b' '):
+        w['wError'] = r_error
+        w['wErrorSp'] = r_error + b' '
+        w['wUnknown'] = r_unknown[len(r_error) + 1:]
+    r_rej = reply([b'AUTH'])
+    tail = b' '.join(names)
+    if r_rej and r_rej.endswith(tail) and r_rej[:len(r_rej) - len(tail)].endswith(b' '):
+        w['wRejected'] = r_rej[:len(r_rej) - len(tail)]
+        w['rejectReply'] = r_rej
+    guid = _Factory.bus.uuid
+    if b'ANONYMOUS' in names:
+        r_ok = reply([b'AUTH ANONYMOUS'])
+        if r_ok and r_ok.endswith(guid) and len(r_ok) > len(guid):
+            w['wOk'] = r_ok[:-len(guid)]
+    if b'EXTERNAL' in names:
+        r_data = reply([b'AUTH EXTERNAL'], creds=(os.getpid(), os.getuid(), os.getgid()))
+        if r_data and b' ' in r_data and not r_data.startswith(w.get('wRejected', b'\xff')):
+            w['wData'] = r_data[:r_data.index(b' ') + 1]
+    return w
+
+
+def _probe_commands(B, delim, unknown_reply):
+    """Route 2 for the command table: a word is a command when the authenticator does not answer it like an
+    unknown command (in WaitingForAuth).  Candidates: the six words of the specification's grammar and every
+    upper-case identifier-like word occurring in the class source (method-name suffixes, literals)."""
+    import re
+    cands = {'AUTH', 'BEGIN', 'CANCEL', 'DATA', 'ERROR', 'NEGOTIATE_UNIX_FD', 'OK', 'REJECTED', 'AGREE_UNIX_FD'}
+    try:
+        for w in re.findall(r'[A-Z][A-Z0-9_]{1,40}', inspect.getsource(B)):
+            cands.add(w)
+            for k in range(1, len(w)):
+                if w[k - 1] == '_':
+                    cands.add(w[k:])
+    except (OSError, TypeError):
+        pass
+    out = []
+    for w in sorted(cands):
+        p, t = _session()
+        err = _feed(p, t, b'\0' + w.encode('ascii') + delim)
+        sent = t.value().split(delim)
+        r = sent[-2] if len(sent) >= 2 else b''
+        if err is not None or t.disconnecting or r != unknown_reply:
+            out.append(w)
+    return out
+
+
+def _probe_cookie(C):
+    """Route 2 for the cookie constants: expiry = the first age `_get_cookies` drops; urandom sizes = the
+    arguments `os.urandom` receives while a cookie and a challenge are made."""
+    import pwd
+    import shutil
+    import tempfile
+    tmp = tempfile.mkdtemp(prefix='c06-tr-')
+    res = {}
+    old_urandom = os.urandom
+    try:
+        inst = C()
+        inst.cookie_file = os.path.join(tmp, 'cookies')
+        base = 1700000000
+        with open(inst.cookie_file, 'wb') as f:
+            for k in range(0, 200):
+                f.write(b'%d %d %s\n' % (k + 1, base - k, b'00'))
+        try:
+            kept = {base - int(x[1]) for x in inst._get_cookies(lambda: float(base))}
+            drops = [k for k in range(0, 200) if k not in kept]
+            if drops and all(k in kept for k in range(0, drops[0])) and not any(k in kept for k in range(drops[0], 200)):
+                res['expiry'] = drops[0]
+        except Exception:
+            pass
+        sizes = []
+
+        def urandom(n):
+            sizes.append(n)
+            return old_urandom(n)
+        os.urandom = urandom
+        try:
+            inst2 = C()
+            user = pwd.getpwuid(os.getuid()).pw_name
+            r = inst2._step_one(user, os.path.join(tmp, 'keyring'))
+            if r[0] == 'CONTINUE' and len(sizes) == 2:
+                res['cookieBytes'], res['challengeBytes'] = sizes
+        except Exception:
+            pass
+    finally:
+        os.urandom = old_urandom
+        shutil.rmtree(tmp, ignore_errors=True)
+    return res
+
+
+def _both(name, by_ast, by_probe, what):
+    """Two routes to one table entry: they must agree; found only by probing -> advisory; by neither -> error."""
+    if by_ast is not None and by_probe is not None:
+        if by_ast != by_probe:
+            raise TranslatorError('%s: the source says %r, the behaviour of the real code %r' % (name, by_ast, by_probe))
+        return by_ast
+    if by_ast is not None:
+        return by_ast
+    if by_probe is not None:
+        ADVISORIES.append('%s: %s; the value %r was derived by probing the real code' % (name, what, by_probe))
+        return by_probe
+    raise TranslatorError('%s: %s and the behavioural probe is inconclusive' % (name, what))
 
 
 def _bytes_literals(fn):
@@ -97,8 +306,9 @@ def _state_names(cls):
     return names
 
 
-def _cookie_constants(C):
-    """`abs(timefunc() - int(k_time)) < N` in _get_cookies; `os.urandom(N)` in _create_cookie and _step_one."""
+def _cookie_constants_by_ast(C):
+    """Route 1: `abs(timefunc() - int(k_time)) < N` in _get_cookies; `os.urandom(N)` in _create_cookie and
+    _step_one.  Each entry is None when its shape is not the known one."""
     def urandom_args(fn):
         out = []
         for node in ast.walk(ast.parse(textwrap.dedent(inspect.getsource(fn)))):
@@ -108,17 +318,19 @@ def _cookie_constants(C):
                 out.append(node.args[0].value)
         return out
     exp = []
-    for node in ast.walk(ast.parse(textwrap.dedent(inspect.getsource(C._get_cookies)))):
-        if (isinstance(node, ast.Compare) and len(node.ops) == 1 and isinstance(node.left, ast.Call)
-                and isinstance(node.left.func, ast.Name) and node.left.func.id == 'abs'):
-            if not (isinstance(node.ops[0], ast.Lt) and isinstance(node.comparators[0], ast.Constant)
-                    and isinstance(node.comparators[0].value, int)):
-                raise TranslatorError('_get_cookies: expiry test has an unexpected shape: %s' % ast.dump(node))
-            exp.append(node.comparators[0].value)
-    a, b = urandom_args(C._create_cookie), urandom_args(C._step_one)
-    if len(exp) != 1 or len(a) != 1 or len(b) != 1:
-        raise TranslatorError('cookie constants: expiry %r, urandom in _create_cookie %r, in _step_one %r' % (exp, a, b))
-    return exp[0], a[0], b[0]
+    try:
+        for node in ast.walk(ast.parse(textwrap.dedent(inspect.getsource(C._get_cookies)))):
+            if (isinstance(node, ast.Compare) and len(node.ops) == 1 and isinstance(node.left, ast.Call)
+                    and isinstance(node.left.func, ast.Name) and node.left.func.id == 'abs'):
+                if (isinstance(node.ops[0], ast.Lt) and isinstance(node.comparators[0], ast.Constant)
+                        and isinstance(node.comparators[0].value, int)):
+                    exp.append(node.comparators[0].value)
+                else:
+                    exp.append(None)
+        a, b = urandom_args(C._create_cookie), urandom_args(C._step_one)
+    except (AttributeError, OSError, TypeError):
+        return None, None, None
+    return (exp[0] if len(exp) == 1 else None, a[0] if len(a) == 1 else None, b[0] if len(b) == 1 else None)
 
 
 def tables():
@@ -126,17 +338,42 @@ def tables():
     P = protocol.BasicDBusProtocol
     B = authentication.BusAuthenticator
     t = {}
-    for owner, attr in ((P, 'MAX_AUTH_LENGTH'), (B, 'MAX_REJECTS_ALLOWED')):
-        v = getattr(owner, attr)
-        if not (isinstance(v, int) and not isinstance(v, bool) and v >= 0):
-            raise TranslatorError('%s is not a natural number: %r' % (attr, v))
-        t[attr] = v
-    if not isinstance(P.authDelimiter, bytes):
-        raise TranslatorError('authDelimiter is not bytes')
-    t['authDelimiter'] = bytes(P.authDelimiter)
-    t['remainderSlack'] = _remainder_slack(P)
-    t['cookieExpiry'], t['cookieRandomBytes'], t['challengeRandomBytes'] = _cookie_constants(
-        authentication.BusCookieAuthenticator)
+    if not isinstance(P.authDelimiter, bytes) or not P.authDelimiter:
+        raise TranslatorError('authDelimiter is not a non-empty bytes object')
+    delim = bytes(P.authDelimiter)
+    t['authDelimiter'] = delim
+
+    # --- limits: named attributes / AST shapes, and the behaviour of the real protocol
+    def nat(owner, attr):
+        v = getattr(owner, attr, None)
+        return v if (isinstance(v, int) and not isinstance(v, bool) and v >= 0) else None
+    old_linux = protocol._is_linux
+    try:
+        p_line, p_rest, p_rejects = _probe_limits(delim)
+    finally:
+        protocol._is_linux = old_linux
+    t['MAX_AUTH_LENGTH'] = _both('MAX_AUTH_LENGTH', nat(P, 'MAX_AUTH_LENGTH'), p_line,
+                                 'BasicDBusProtocol.MAX_AUTH_LENGTH is not a natural-number attribute any more')
+    t['MAX_REJECTS_ALLOWED'] = _both('MAX_REJECTS_ALLOWED', nat(B, 'MAX_REJECTS_ALLOWED'), p_rejects,
+                                     'BusAuthenticator.MAX_REJECTS_ALLOWED is not a natural-number attribute any more')
+    p_slack = None
+    if p_line is not None and p_rest is not None and p_line + len(delim) >= p_rest:
+        p_slack = p_line + len(delim) - p_rest
+    t['remainderSlack'] = _both('remainderSlack', _limits_by_ast(P), p_slack,
+                                'the two length checks of the line framing do not have the known shape '
+                                '(`len(line) > self.MAX_AUTH_LENGTH`, `len(self._buffer) > (self.MAX_AUTH_LENGTH + '
+                                'len(self.authDelimiter) - K)`)')
+
+    # --- cookie constants
+    C = authentication.BusCookieAuthenticator
+    a_exp, a_cb, a_chb = _cookie_constants_by_ast(C)
+    pc = _probe_cookie(C)
+    t['cookieExpiry'] = _both('cookieExpiry', a_exp, pc.get('expiry'),
+                              '_get_cookies does not test `abs(timefunc() - int(k_time)) < <literal>`')
+    t['cookieRandomBytes'] = _both('cookieRandomBytes', a_cb, pc.get('cookieBytes'),
+                                   '_create_cookie does not call os.urandom(<literal>) exactly once')
+    t['challengeRandomBytes'] = _both('challengeRandomBytes', a_chb, pc.get('challengeBytes'),
+                                      '_step_one does not call os.urandom(<literal>) exactly once')
 
     known = {authentication.BusExternalAuthenticator: 'external',
              authentication.BusCookieAuthenticator: 'cookie',
@@ -150,27 +387,42 @@ def tables():
         mechs.append((name, known[cls]))
     t['mechs'] = mechs
 
-    cmds = sorted(a[len('_auth_'):] for a in dir(B) if a.startswith('_auth_') and callable(getattr(B, a)))
-    t['commands'] = cmds
+    by_dir = sorted(a[len('_auth_'):] for a in dir(B) if a.startswith('_auth_') and callable(getattr(B, a)))
 
-    # reply words
-    def one(fn, lit):
-        if lit not in _bytes_literals(fn):
-            raise TranslatorError('%s: bytes literal %r not found' % (fn.__name__, lit))
-        return lit
-    t['wRejected'] = one(B.__init__, b'REJECTED ')
-    t['wErrorSp'] = one(B.sendError, b'ERROR ')
-    t['wError'] = one(B.sendError, b'ERROR')
-    t['wOk'] = one(B.stepAuth, b'OK ')
-    t['wData'] = one(B.stepAuth, b'DATA ')
-    t['wUnknown'] = one(B.handleAuthMessage, b'"Unknown command"')
+    # --- reply words: provoked from the real authenticator; the literals of the class source are the cross-check
+    try:
+        lits = set(_bytes_literals(B))
+    except (OSError, TypeError):
+        lits = set()
+    try:
+        probed = _probe_words(B, [n for n, _ in mechs], delim)
+    finally:
+        protocol._is_linux = old_linux
+    for k in ('wRejected', 'wErrorSp', 'wError', 'wOk', 'wData', 'wUnknown'):
+        v = probed.get(k)
+        if v is None:
+            raise TranslatorError('reply word %s: the reply could not be provoked from the real authenticator' % k)
+        if v not in lits:
+            ADVISORIES.append('reply word %s = %r is not a bytes literal of class BusAuthenticator any more; it was '
+                              'read off the reply of the real authenticator' % (k, v))
+        t[k] = v
+    try:
+        by_probe = _probe_commands(B, delim, t['wErrorSp'] + t['wUnknown'])
+    finally:
+        protocol._is_linux = old_linux
+    t['commands'] = _both('commands', by_dir or None, by_probe or None,
+                          'BusAuthenticator has no `_auth_<NAME>` methods any more')
     t['states'] = sorted(_state_names(B))
-    # reject_msg as actually computed by the constructor
+    # reject_msg as actually computed by the constructor, and as actually sent
     t['rejectMsg'] = B(b'').reject_msg
+    if probed.get('rejectReply') != t['rejectMsg']:
+        raise TranslatorError('reject_msg %r is not what the authenticator sends (%r)'
+                              % (t['rejectMsg'], probed.get('rejectReply')))
     return t
 
 
 def emit(repo):
+    del ADVISORIES[:]
     t = tables()
     o = []
     o.append('/-')
